@@ -1,57 +1,8 @@
 (* Dispatcher for C07: a wavefront is multiplied through a chain of planes; after every step the
    observable attributes and views are reported; finally Wavefront.insert(out, weight).
    Scalar: the group ring Q(i)[C_L]; the case supplies L (L = 1: complex rationals, no OPD). *)
-From LV Require Import Extract.FieldCodec Model.Plane.
+From LV Require Import Extract.PlaneCodec.
 Require Import ExtrOcamlBasic.
-
-Definition gnz (L : nat) (x : GRS L) : bool := negb (forallb cq_is0 x).
-
-Definition p_pix : parser pixraw :=
-  t <- pZ ;;
-  if t =? 0 then pret PixNone
-  else if t =? 1 then (q <- pQ ;; pret (Pix1 q))
-  else if t =? 2 then (a <- pQ ;; b <- pQ ;; pret (Pix2 a b))
-  else pfail.
-Definition pqarr : parser (garr Qc) :=
-  n <- pZ ;; m <- pZ ;;
-  if (n <? 0) || (m <? 0) then pfail else
-  l <- prep (Z.to_nat (n * m)) pQ ;;
-  pret (mkP n m (fun i j => if inr n i && inr m j then nth (Z.to_nat (i * m + j)) l 0%Qc else 0%Qc)).
-Definition p_amp (L : nat) : parser (aattr (GRS L)) :=
-  t <- pZ ;;
-  if t =? 0 then (v <- pK L ;; pret (AmpS v))
-  else if t =? 2 then (a <- parr L ;; pret (AmpA a)) else pfail.
-Definition p_opd : parser oattr :=
-  t <- pZ ;;
-  if t =? 0 then (q <- pQ ;; pret (OpdS q))
-  else if t =? 2 then (a <- pqarr ;; pret (OpdA a)) else pfail.
-Definition p_mraw (L : nat) : parser (mraw (GRS L)) :=
-  t <- pZ ;;
-  if t =? 0 then pret MNone
-  else if t =? 1 then (v <- pK L ;; pret (MS v))
-  else if t =? 2 then (a <- parr L ;; pret (M2 a))
-  else if t =? 3 then (n <- pZ ;; m <- pZ ;; l <- plist (parr L) ;;
-                       if forallb (fun a => (nr a =? n) && (nc a =? m)) l then pret (M3 n m l) else pfail)
-  else pfail.
-(* one plane: kind (0 Plane, 1 Pupil), amplitude, opd, mask, pixelscale, focal_length (Pupil), tilt *)
-Definition p_plane (L : nat) : parser (result (plane (GRS L))) :=
-  k <- pZ ;; a <- p_amp L ;; o <- p_opd ;; m <- p_mraw L ;; px <- p_pix ;; f <- popt pQ ;; tl <- plist ptilt ;;
-  pret (plane_init (gnz L) a o m px
-          (if k =? 0 then None else Some (match f with Some q => FVal q | None => FNone end)) tl).
-
-Definition efdata (L : nat) (d : fdata (GRS L)) : list Z :=
-  match d with D0 v => 0 :: eK L v | D2 a => 2 :: earr L a end.
-Definition efocal (f : focal) : list Z :=
-  match f with FInf => [0] | FNone => [1] | FVal q => 2 :: eQ q end.
-Definition epix (p : option (Qc * Qc)) : list Z := eopt (fun '(a, b) => eQ a ++ eQ b) p.
-Definition efsum (L : nat) (f : field (GRS L)) : list Z :=
-  let '(a, b) := dshape (fd f) in
-  (match fd f with D0 _ => 0 | D2 _ => 2 end) :: a :: b :: offr f :: offc f :: elist etilt (ftilt f).
-(* what is observed of a wavefront *)
-Definition ewf (L : nat) (w : pwf (GRS L)) : list Z :=
-  eQ (pw_lam w) ++ epix (pw_pix w) ++ efocal (pw_focal w) ++ eopt (fun '(a, b) => [a; b]) (pw_shape w)
-  ++ elist (efsum L) (pw_data w)
-  ++ eresult (efdata L) (pwf_field w) ++ eresult (efdata L) (pwf_intensity w).
 
 (* run the chain; returns the reports of the completed steps and the final wavefront or the error *)
 Fixpoint chain (L : nat) (w : pwf (GRS L)) (ps : list (result (plane (GRS L)))) (acc : list Z) (n : Z)
